@@ -164,6 +164,7 @@ func init() {
 			})
 			trav = samplePaths(trav, tierN(tier, 90, 1500), rng)
 			jobs = append(jobs, wideDocJobs("c07wide", tier, rng)...)
+			jobs = append(jobs, longArrayJobs("c07long", "C01", "")...)
 			for i, p := range trav {
 				d := p.Depth
 				if d > 2 {
@@ -240,6 +241,18 @@ func init() {
 					jobs = append(jobs, &engine.Job{ID: fmt.Sprintf("c05mut-%d", i), Harness: "zzH_C05", PoolMode: pool,
 						Params: map[string]string{"path": p.Text, "holes": p.Holes, "config": cfg, "history": "2", "recycle": "0", "scribble": "0", "mutate": "1"},
 						Docs:   map[string]*engine.DocCfg{"doc1": dm}, MaxPaths: 400000, TimeLimit: 4 * time.Minute})
+				}
+			}
+			// a user function may return the very list it was given: the memory the
+			// library hands to user code ends up in a result the caller owns
+			for i, p := range returnedArgumentPaths() {
+				for r := 0; r < 2; r++ {
+					d := docCfg(2, 2, []string{"a", "b"}, engine.KNil|engine.KFloat|engine.KString)
+					d.MaxLenAt = map[int]int{1: 1}
+					d.KeysAt = map[int][]string{1: {"a"}}
+					jobs = append(jobs, &engine.Job{ID: fmt.Sprintf("c05ret-%d-%d", i, r), Harness: "zzH_C05", PoolMode: "lifo",
+						Params: map[string]string{"path": p.Text, "holes": "", "config": "funcs", "history": "2", "recycle": fmt.Sprint(r), "scribble": "0", "mutate": "0"},
+						Docs:   map[string]*engine.DocCfg{"doc1": d, "doc2": d}, MaxPaths: 400000, TimeLimit: 4 * time.Minute})
 				}
 			}
 			bi := 0
